@@ -15,7 +15,7 @@ ALL="C01 C02 C03 C04 C05 C06 C07 C08 C09 C10 C11 C12 C13 C14 C15 C16 C17 C18 C19
 for d in "$@"; do
   prop=$(basename "$(dirname "$d")" | sed 's/-out.*//'); n=$(basename "$d")
   # area-based rounds (X<k>-out): the property is named on the first line of the README
-  case "$prop" in X*|Y*|Z*|W*|V*|U*|T*) prop=$(head -1 "$d/README.md" | grep -o 'C[0-9][0-9]' | head -1); [ -z "$prop" ] && prop=C01;; esac
+  case "$prop" in X*|Y*|Z*|W*|V*|U*|T*|S*) prop=$(head -1 "$d/README.md" | grep -o 'C[0-9][0-9]' | head -1); [ -z "$prop" ] && prop=C01;; esac
   log=$RES/$(basename "$(dirname "$d")")-$n.log
   {
     echo "== $prop/$n"
